@@ -1380,7 +1380,8 @@ func runScenario(sc *Scenario) {
 		}
 		// pushed under this name?  (a deduplicated directory is restored from the first one's gzip)
 		id := run.NewID()
-		input := fmt.Sprintf("X %d %d %s %s%s", sc.Umask, b2i(sc.Preserve), nameComps(name), tree(it.Tree, false), tail)
+		// X = extraction as root, XU = by an unprivileged owner (the model adds the permission check)
+		input := fmt.Sprintf("X%s %d %d %s %s%s", map[bool]string{false: "", true: "U"}[sc.NonRoot], sc.Umask, b2i(sc.Preserve), nameComps(name), tree(it.Tree, false), tail)
 		if cerr != nil {
 			// which item failed is not known with several directories; compare only single-directory scenarios
 			ndirs := 0
@@ -1645,7 +1646,7 @@ func foreignCase(ctx context.Context, sc *Scenario, tail, work string, it Item) 
 	perr := st.Push(ctx, desc, bytes.NewReader(blob))
 	st.Close()
 	id := run.NewID()
-	input := fmt.Sprintf("E %d %d %s %d %s%s", sc.Umask, b2i(sc.Preserve), nameComps(unhx(it.Name)), len(es), strings.Join(toks, " "), tail)
+	input := fmt.Sprintf("E%s %d %d %s %d %s%s", map[bool]string{false: "", true: "U"}[sc.NonRoot], sc.Umask, b2i(sc.Preserve), nameComps(unhx(it.Name)), len(es), strings.Join(toks, " "), tail)
 	if perr != nil {
 		run.Case(id, input, strings.SplitN(errClass(perr), ":", 2)[0])
 		run.Count("foreign=" + strings.SplitN(errClass(perr), ":", 2)[0])
